@@ -29,7 +29,7 @@ from vlib import Infra
 
 NAMES_SMALL = '{"a", "ü"}'
 NAMES_MID = '{"a", "a.b", "ü"}'
-NAMES_BIG = '{"a", "a.b", "sp ace", "ü", "d", "e"}'
+NAMES_BIG = '{"a", "a.b", "sp ace", "ü", "d", "e", "ten-chars1", "a-very-long-file-name-0123456789"}'
 READS = 1400
 
 
